@@ -8,7 +8,7 @@ cd $V/coq
 timeout 1800 make -j16 Extract.vo > $V/coq/make.log 2>&1 || { tail -20 $V/coq/make.log; exit 1; }
 mkdir -p $V/build/model
 cd $V/build/model
-if [ ! -f model_driver ] || [ $V/coq/model.ml -nt model_driver ] || [ $V/harness/model_driver.ml -nt model_driver ] || [ $V/coq/Dispatch.v -nt model_driver ] || [ $V/harness/hist_model.ml -nt model_driver ] || [ $V/harness/fmt_model.ml -nt model_driver ] || [ $V/harness/fmt_engine.ml -nt model_driver ]; then
+if [ ! -f model_driver ] || [ $V/coq/model.ml -nt model_driver ] || [ $V/harness/model_driver.ml -nt model_driver ] || [ $V/coq/Dispatch.v -nt model_driver ] || [ $V/harness/hist_model.ml -nt model_driver ] || [ $V/harness/fmt_model.ml -nt model_driver ] || [ $V/harness/fmt_engine.ml -nt model_driver ] || [ $V/harness/sort_model.ml -nt model_driver ] || [ ! -f sort_model ]; then
   cp $V/coq/model.ml $V/coq/model.mli $V/harness/model_driver.ml .
   python3 $V/harness/gen_fn_table.py fn_table.ml
   ocamlfind ocamlopt -O3 -w -a model.mli model.ml fn_table.ml model_driver.ml -o model_driver 2>/dev/null || ocamlfind ocamlopt -w -a model.mli model.ml fn_table.ml model_driver.ml -o model_driver
@@ -18,6 +18,8 @@ if [ ! -f model_driver ] || [ $V/coq/model.ml -nt model_driver ] || [ $V/harness
   ocamlfind ocamlopt -w -a model.mli model.ml fmt_model.ml -o fmt_model
   cp $V/harness/fmt_engine.ml .
   ocamlfind ocamlopt -w -a model.mli model.ml fmt_engine.ml -o fmt_engine
+  cp $V/harness/sort_model.ml .
+  ocamlfind ocamlopt -O3 -w -a model.mli model.ml sort_model.ml -o sort_model 2>/dev/null || ocamlfind ocamlopt -w -a model.mli model.ml sort_model.ml -o sort_model
 fi
 # C17: the normalisation model over the regenerated tables (own target: a failure here only affects C17)
 if [ -f $V/coq/Gen/UniTables.v ]; then
